@@ -114,7 +114,7 @@ struct StoreSession : public vw::Session {
     return s + "]" + bopOnly(i, deref);
   }
 
-  std::string xdump(Instance& I, bool deref) {
+  std::string xdump(Instance& I, bool deref, bool altOnly = false) {
     vw::Obs o;
     auto& t = I.tree;
     for (auto* i : t.getBlocks()) o.add(altLine(*i, true));
@@ -135,6 +135,12 @@ struct StoreSession : public vw::Session {
       auto it = reg->names.find("id:" + vh::hex(kv.first.data(), kv.first.size()));
       o.add("ALT fpidx " + (it == reg->names.end() ? "?" + vh::hex(kv.first) : it->second) + " -> " +
             reg->nameOf(kv.second));
+    }
+    if (altOnly) {
+      auto s = o.str();
+      std::replace(s.begin(), s.end(), '\n', ';');
+      std::replace(s.begin(), s.end(), ' ', '_');
+      return s;
     }
     for (auto* i : t.vbk().getBlocks()) o.add(vbkLine(*i, true, deref));
     o.add("VBK tips" + tipsOf(t.vbk()));
@@ -340,6 +346,7 @@ struct StoreSession : public vw::Session {
   std::string extra(Instance& I, const std::vector<std::string>& t) override {
     const std::string& c = t[0];
     if (c == "xdump") return xdump(I, !(t.size() > 1 && t[1] == "nobop"));
+    if (c == "adump") return xdump(I, false, true);  // ALT tree only (model correspondence)
     if (c == "dirty")
       return "A:" + dirtyOf(I.tree) + " V:" + dirtyOf(I.tree.vbk()) + " B:" + dirtyOf(I.tree.btc());
     if (c == "final") {
